@@ -6,6 +6,9 @@ tier's length with the reference semantics and propagates the set of compiled co
 plans that map back to the prefix (aux-closure with k auxiliary steps, k = 1 for compilers that add a goal action).
 A witness (valid original plan without compiled counterpart) is re-validated with the real SequentialPlanValidator and
 cross-checked by a brute-force search over compiled plans with the real validator.
+Besides the shared cases, histories of ONE compiler instance are run here (history_cases below): compile(P1), then
+compile(P2) with P2 = P1 edited (effects / preconditions of a same-named action, objects, constraints); the second
+result is judged against P2 by the same validator and compared with a fresh instance's result.
 """
 from itertools import product
 
@@ -71,12 +74,302 @@ def brute_force_counterpart(c, w, k):
     return False
 
 
+# ------------------------------------------------------------------ histories: ONE compiler instance, compile(P1); compile(P2)
+# P2 is P1 edited (the same Problem object edited in place, or an edited clone living in the same environment, so
+# that the expressions of both problems are the same hash-consed nodes):
+#   effect-added / effect-removed   an action keeps its name, its effects change (preferably an assignment to a fluent
+#                                    that a trajectory constraint / goal reads)
+#   action-replaced                  an action is replaced by a same-named action with other preconditions
+#   object-added                     one more object of a declared type
+#   constraint-changed               a trajectory constraint (or, without one, a goal) is replaced by one sharing a subformula
+# The SECOND result is judged against P2 by the ordinary Coq completeness validator (and the "refused as unsolvable"
+# search) and compared structurally with the result of a FRESH compiler instance on P2.
+HIST_EDITS = ("effect-added", "effect-removed", "action-replaced", "object-added", "constraint-changed")
+
+
+def _ground_atoms(e, out):
+    """Boolean fluent expressions with constant arguments occurring in e (in order of appearance, no duplicates)"""
+    if e.is_fluent_exp():
+        if e.type.is_bool_type() and all(a.is_object_exp() or a.is_constant() for a in e.args) and e not in out:
+            out.append(e)
+        return
+    for a in e.args:
+        _ground_atoms(a, out)
+
+
+def constraint_atoms(p):
+    out = []
+    for e in list(p.trajectory_constraints) + list(p.goals):
+        _ground_atoms(e, out)
+    return out
+
+
+def problem_atoms(p):
+    out = constraint_atoms(p)
+    for a in p.actions:
+        for e in getattr(a, "preconditions", []):
+            _ground_atoms(e, out)
+        for eff in getattr(a, "effects", []):
+            _ground_atoms(eff.fluent, out)
+            _ground_atoms(eff.condition, out)
+    return out
+
+
+def _put_effect(a, e):
+    if e.is_increase():
+        a.add_increase_effect(e.fluent, e.value, e.condition, forall=e.forall)
+    elif e.is_decrease():
+        a.add_decrease_effect(e.fluent, e.value, e.condition, forall=e.forall)
+    else:
+        a.add_effect(e.fluent, e.value, e.condition, forall=e.forall)
+
+
+def _some_condition(gen, p, a, rng):
+    em = p.environment.expression_manager
+    if hasattr(gen, "gen_bool") and rng.random() < 0.5:
+        return gen.gen_bool(1, list(a.parameters), ())
+    atoms = problem_atoms(p)
+    if not atoms:
+        return None
+    x = rng.choice(atoms)
+    return x if rng.random() < 0.5 else em.Not(x)
+
+
+def edit_second(gen, p, rng, kind):
+    """edit the problem p (P1 itself or its clone) into P2; returns a description or None when the edit does not apply"""
+    from unified_planning.model import InstantaneousAction, Object
+    em = p.environment.expression_manager
+    acts = [a for a in p.actions if isinstance(a, InstantaneousAction)]
+    catoms = constraint_atoms(p)
+    if kind == "effect-removed":
+        cands = [a for a in acts if len(a.effects) >= 2]
+        if not cands:
+            kind = "effect-added"
+        else:
+            a = rng.choice(cands)
+            effs = list(a.effects)
+            pref = [i for i, e in enumerate(effs) if e.fluent in catoms]
+            i = rng.choice(pref) if pref and rng.random() < 0.75 else rng.randrange(len(effs))
+            a.clear_effects()
+            for j, e in enumerate(effs):
+                if j != i:
+                    _put_effect(a, e)
+            return "effect-removed:%s:%s" % (a.name, effs[i].fluent)
+    if kind == "object-added":
+        types = list(p.user_types)
+        if types:
+            t = rng.choice(types)
+            nm = rng.choice([x for x in ["zz", "z_1", "a_b_c", "q0", "new_0"] if not p.has_name(x)])
+            p.add_object(Object(nm, t, p.environment))
+            return "object-added:%s:%s" % (nm, t.name)
+        kind = "effect-added"
+    if kind == "effect-added":
+        if not acts:
+            return None
+        a = rng.choice(acts)
+        free = [x for x in catoms if not any(e.fluent == x for e in a.effects)]
+        if free and (rng.random() < 0.7 or not hasattr(gen, "add_random_effect")):
+            x = rng.choice(free)
+            v = rng.random() < 0.5
+            a.add_effect(x, v)
+            return "effect-added:%s:%s:=%s" % (a.name, x, v)
+        if hasattr(gen, "add_random_effect"):
+            for _ in range(8):
+                try:
+                    gen.add_random_effect(a, list(a.parameters))
+                    return "effect-added:%s:%s" % (a.name, a.effects[-1].fluent)
+                except Exception:  # noqa  (conflicting / ill-typed random effect: try another one)
+                    pass
+        return None
+    if kind == "action-replaced":
+        if not acts:
+            return None
+        a = rng.choice(acts)
+        b = a.clone()
+        old = list(a.preconditions)
+        b.clear_preconditions()
+        drop = rng.randrange(len(old)) if old and rng.random() < 0.6 else None
+        for j, c in enumerate(old):
+            if j != drop:
+                b.add_precondition(c)
+        added = None
+        if drop is None or rng.random() < 0.5:
+            added = _some_condition(gen, p, b, rng)
+            if added is not None:
+                b.add_precondition(added)
+        if list(b.preconditions) == old:
+            return None
+        allacts = list(p.actions)
+        p.clear_actions()
+        for x in allacts:
+            p.add_action(b if x is a else x)
+        return "action-replaced:%s:dropped=%s:added=%s" % (a.name, None if drop is None else old[drop], added)
+    # constraint-changed
+    tcs = list(p.trajectory_constraints)
+    tcs = [c for c in tcs if c.is_always() or c.is_sometime() or c.is_at_most_once() or c.is_sometime_before() or c.is_sometime_after()]
+    if tcs and len(tcs) == len(p.trajectory_constraints):
+        i = rng.randrange(len(tcs))
+        c = tcs[i]
+        phi = c.args[0]
+        same_op = (em.Always if c.is_always() else em.Sometime if c.is_sometime() else em.AtMostOnce if c.is_at_most_once()
+                   else em.SometimeBefore if c.is_sometime_before() else em.SometimeAfter)
+        atoms = problem_atoms(p)
+        alts = []
+        if atoms:        # the same operator over an argument that keeps the old argument as a subformula
+            x = rng.choice(atoms)
+            lit = x if rng.random() < 0.5 else em.Not(x)
+            alts += [lambda: same_op(em.Or(phi, lit), *c.args[1:]), lambda: same_op(em.And(phi, lit), *c.args[1:])]
+        if c.is_always():
+            alts += [lambda: em.Sometime(phi), lambda: em.AtMostOnce(phi)]
+        elif c.is_sometime():
+            alts += [lambda: em.AtMostOnce(phi), lambda: em.Always(phi)]
+        elif c.is_at_most_once():
+            alts += [lambda: em.Sometime(phi), lambda: em.Always(em.Not(phi))]
+        elif c.is_sometime_before():
+            alts += [lambda: em.SometimeAfter(phi, c.args[1]), lambda: em.SometimeBefore(c.args[1], phi), lambda: em.Sometime(phi)]
+        else:
+            alts += [lambda: em.SometimeBefore(phi, c.args[1]), lambda: em.SometimeAfter(c.args[1], phi), lambda: em.Sometime(c.args[1])]
+        new = rng.choice(alts)()
+        p.clear_trajectory_constraints()
+        for j, x in enumerate(tcs):
+            p.add_trajectory_constraint(new if j == i else x)
+        return "constraint-changed:%s -> %s" % (c, new)
+    goals = list(p.goals)
+    extra = _some_condition(gen, p, acts[0], rng) if acts else None
+    drop = rng.randrange(len(goals)) if len(goals) > 1 and (extra is None or rng.random() < 0.5) else None
+    if drop is None and extra is None:
+        return None
+    p.clear_goals()
+    for j, g in enumerate(goals):
+        if j != drop:
+            p.add_goal(g)
+    if drop is None or rng.random() < 0.5:
+        if extra is not None:
+            p.add_goal(extra)
+    return "goal-changed:dropped=%s:added=%s" % (None if drop is None else goals[drop], extra)
+
+
+def tcr_history_sources(rng, n):
+    """propositional toggle problems (every fluent has an _on and an _off action, some actions assign a second fluent)
+    with one trajectory constraint of every operator over compound arguments: the problems in which the regression of
+    a constraint through an action depends on ALL the effects of the action"""
+    out = []
+    ops = ["always", "amo", "sometime", "sb", "sa", "always", "sometime", "amo"]
+    from unified_planning.engines.compilers import TrajectoryConstraintsRemover
+    for i in range(n):
+        op = ops[i % len(ops)]
+        for attempt in range(6):       # prefer a first problem that the compiler does not refuse as unsolvable
+            inits = {"a": rng.random() < 0.5, "b": rng.random() < 0.5, "c": rng.random() < 0.5}
+            env, em, p, fl = cc._toggle_base("hist-traj-%s-%d" % (op, i), inits)
+            for a in p.actions:
+                if rng.random() < 0.4:
+                    tgt = rng.choice([x for x in sorted(fl) if not a.name.startswith(x + "_")])
+                    a.add_effect(fl[tgt], rng.random() < 0.5)
+            phi, psi = cc._compound(em, fl, rng, False), cc._compound(em, fl, rng, False)
+            p.add_trajectory_constraint(cc._traj(em, op, phi, psi))
+            g = rng.choice(sorted(fl))
+            p.add_goal(rng.choice([fl[g], em.Not(fl[g]), em.Or(fl[g], em.Not(fl[g]))]))
+            try:
+                TrajectoryConstraintsRemover().compile(p)
+                break
+            except Exception:  # noqa
+                pass
+        out.append(cc.HandGen(p, "hist-traj-%s" % op))
+    return out
+
+
+def compare_with_fresh(c, f):
+    """the second result of the used compiler instance against the result of a fresh instance on the same problem"""
+    if (c.raised is None) != (f.raised is None):
+        return "the used instance %s, a fresh instance %s" % (
+            "returned a result" if c.raised is None else "raised %s: %s" % (type(c.raised).__name__, str(c.raised)[:100]),
+            "returned a result" if f.raised is None else "raised %s: %s" % (type(f.raised).__name__, str(f.raised)[:100]))
+    if c.raised is not None:
+        if type(c.raised) is not type(f.raised) or str(c.raised) != str(f.raised):
+            return "the used instance raised %s: %s, a fresh instance %s: %s" % (
+                type(c.raised).__name__, str(c.raised)[:100], type(f.raised).__name__, str(f.raised)[:100])
+        return None
+    if c.result is None or f.result is None or c.result.problem is None or f.result.problem is None:
+        return None
+    if c.result.problem != f.result.problem:
+        return "the compiled problem of the used instance differs from the compiled problem of a fresh instance"
+    if c.live and f.live and c.back != f.back:
+        return "the map-back table of the used instance differs from the one of a fresh instance"
+    return None
+
+
+def history_cases(ctx, first_idx, per_spec, n_tcr, max_insts, stats):
+    rng = ctx.rng
+    out = []
+    for si, spec in enumerate(cc.compiler_specs()):
+        probe = spec["make"]()
+        probe = probe._compilers[0] if spec["pipeline"] else probe
+        tcr = spec["id"] == "trajectory-constraints-remover"
+        sources = []
+        if tcr:
+            srcs = tcr_history_sources(rng, n_tcr)
+            kinds = ["effect-added", "effect-removed", "effect-added", "action-replaced", "constraint-changed",
+                     "effect-removed", "effect-added", "object-added"]
+            sources += [(g, kinds[i % len(kinds)]) for i, g in enumerate(srcs)]
+        for j in range(max(per_spec, len(HIST_EDITS)) if tcr else per_spec):
+            sources.append((None, HIST_EDITS[(si + j) % len(HIST_EDITS)]))
+        for gen, kind in sources:
+            try:
+                if gen is None:
+                    gen = cc.generate(rng, spec)
+                    if gen is None:
+                        continue
+                if not probe.supports(gen.problem.kind):
+                    continue
+                comp = spec["make"]()
+                try:
+                    comp.compile(gen.problem)
+                except Exception:  # noqa  (the first compilation is an ordinary case: reported there / by C08)
+                    stats["first_compilation_raised"] = stats.get("first_compilation_raised", 0) + 1
+                in_place = rng.random() < 0.5
+                p2 = gen.problem if in_place else gen.problem.clone()
+                what = None
+                for _ in range(4):
+                    what = edit_second(gen, p2, rng, kind)
+                    if what is not None:
+                        break
+                if what is None or not probe.supports(p2.kind):
+                    stats["edit_not_applicable"] = stats.get("edit_not_applicable", 0) + 1
+                    continue
+            except Exception as e:  # noqa  (an edit that the API rejects: skip the history)
+                stats["build_errors"] = stats.get("build_errors", 0) + 1
+                stats["build_error_last"] = "%s: %s" % (type(e).__name__, str(e)[:120])
+                continue
+            g2 = cc.HandGen(p2, "history2:%s:%s:%s" % (getattr(gen, "label", "generated"), "in-place" if in_place else "clone", what))
+            c = cc.Case(first_idx + len(out), spec, g2, compiler=comp).run(max(max_insts, 20))
+            c.history_kind = what.split(":")[0]
+            c.fresh = cc.Case(-1, spec, g2).run(max(max_insts, 20))
+            c.fresh_diff = compare_with_fresh(c, c.fresh)
+            stats["histories"] = stats.get("histories", 0) + 1
+            stats.setdefault("by_edit", {})
+            stats["by_edit"][c.history_kind] = stats["by_edit"].get(c.history_kind, 0) + 1
+            stats.setdefault("by_compiler", {})
+            stats["by_compiler"][spec["id"]] = stats["by_compiler"].get(spec["id"], 0) + 1
+            out.append(c)
+    return out
+
+
 def run(ctx):
     ok_proofs = ctx.check_props(extra=["theories/Corr/Corr_C06.v", "theories/Corr/Corr_LayerA.v"])
     per, n, max_insts = (20, 2, 12) if ctx.quick else (45, 3, 14)
     cases, gstats = cc.build_cases(ctx, per, max_insts)
+    import time as _timeh
+    _th = _timeh.time()
+    hstats = {}
+    hcases = history_cases(ctx, len(cases), 3 if ctx.quick else 8, 16 if ctx.quick else 32, max_insts, hstats)
+    hstats["seconds_build"] = round(_timeh.time() - _th, 1)
+    layer_a_cases = cases                  # Layer A correspondences run on the ordinary cases only
+    cases = cases + hcases
     live = [c for c in cases if c.live]
-    reports = cc.coq_reports(ctx, live, lambda c: cc.complete_term(c, c.spec["aux"], n), label="complete",
+    def bound(c):        # a history whose result differs from a fresh compiler's is searched two steps deeper
+        return n + 2 if getattr(c, "fresh_diff", None) else n
+
+    reports = cc.coq_reports(ctx, live, lambda c: cc.complete_term(c, c.spec["aux"], bound(c)), label="complete",
                              shard=8 if ctx.quick else 12, timeout=1500)
     # compilers that refused the problem as unsolvable: the original must have no valid plan (up to n)
     refused = [c for c in cases if c.raised is not None and "PROBLEM NOT SOLVABLE" in str(c.raised) and c.orig is not None
@@ -119,18 +412,49 @@ def run(ctx):
         tags = sorted(set(["c07", c.spec["id"]] + c.spec["members"])) + cc.shape_tags(c.problem) + cc.mirrored_tags(c)
         tags.append("confirmed-by-real-validator" if confirmed else
                     ("real-validator-finds-counterpart" if bf else "strict-semantics-only"))
+        extra = {}
+        hist = ""
+        if getattr(c, "history_kind", None) is not None:      # second compilation of one compiler instance
+            tags += ["history-one-compiler-instance", "history-" + c.history_kind]
+            hist = " [second compilation of ONE compiler instance, after the problem was edited (%s)%s]" % (
+                c.history_kind, "; a FRESH compiler instance gives a different result on the same problem: " + c.fresh_diff
+                if c.fresh_diff else "; a fresh compiler instance gives the same result")
+            if c.fresh_diff:
+                tags.append("used-compiler-differs-from-fresh")
+            extra = dict(history=c.gen.label, differs_from_fresh_compiler=c.fresh_diff,
+                         fresh_compiled_problem_text=(None if c.fresh.comp is None else str(c.fresh.comp.problem)))
         ctx.fail("oracle",
                  "%s: the plan %s is valid for the original problem but no valid compiled plan of length <= %d maps back to it"
-                 % (c.spec["id"], c.orig.plan_json(w), len(w) + k),
+                 % (c.spec["id"], c.orig.plan_json(w), len(w) + k) + hist,
                  tags,
-                 dict(cc.case_json(c), original_plan=c.orig.plan_json(w), real_validator_on_original=[rv_o, why_o],
+                 dict(cc.case_json(c), **extra, original_plan=c.orig.plan_json(w), real_validator_on_original=[rv_o, why_o],
                       brute_force_counterpart_by_real_validator=(None if bf in (None, False) else c.comp.plan_json(bf)),
                       brute_force_status=("not-run" if bf is None else ("none-found" if bf is False else "found")),
-                      coq_oracle="UPV.Compilers.SimCheck.complete_search (k=%d, n=%d)" % (k, n)),
+                      coq_oracle="UPV.Compilers.SimCheck.complete_search (k=%d, n=%d)" % (k, bound(c))),
                  True)
+    failed_idx = set(c.idx for c in live if reports[c.idx][1] != 0)
+    # histories: a used compiler instance must give what a fresh one gives (cheap extra oracle; no failing plan known,
+    # so it is reported as a broken tie unless the validator above / the refused search already reported the case)
+    refused_failed = set(c.idx for c in refused if refused_reports[c.idx][0] != 0)
+    ndiff = 0
+    for c in hcases:
+        if c.fresh_diff is None:
+            continue
+        ndiff += 1
+        if c.idx in failed_idx or c.idx in refused_failed:
+            continue
+        ctx.fail("corr", "%s: second compilation of ONE compiler instance after the problem was edited (%s): %s; no original plan "
+                 "without counterpart found up to length %d" % (c.spec["id"], c.history_kind, c.fresh_diff, bound(c)),
+                 sorted(set(["c07", c.spec["id"], "history-one-compiler-instance", "history-" + c.history_kind,
+                             "used-compiler-differs-from-fresh"] + c.spec["members"])),
+                 dict(cc.case_json(c), history=c.gen.label,
+                      fresh_compiled_problem_text=(None if c.fresh.comp is None else str(c.fresh.comp.problem))), False)
+    hstats["differs_from_fresh"] = ndiff
+    hstats["live"] = sum(1 for c in hcases if c.live)
+    hstats["with_a_valid_original_plan"] = sum(1 for c in hcases if c.live and reports[c.idx][0] > 0)
     # ------------------------------------------------------------------ Layer A: structural correspondence -------
     # (separate from the validation above; see harness/layera.py)
-    failed_idx = set(c.idx for c in live if reports[c.idx][1] != 0)
+    cases = layer_a_cases
     import time as _time0
     _t0la = _time0.time()
     la_cov = layera.run(ctx, cases, validator_failed=failed_idx)
@@ -156,6 +480,7 @@ def run(ctx):
     dist["valid_original_plans_covered"] = valid_plans_total
     dist["problems_with_a_valid_original_plan"] = with_valid_plans
     dist["refused_as_unsolvable_checked"] = len(refused)
+    dist["histories_compile_edit_compile"] = hstats
     samples = [dict(compiler=c.spec["id"], original_instances=len(c.orig.insts), compiled_instances=len(c.comp.insts),
                     aux_budget=c.spec["aux"], report=reports[c.idx]) for c in live[:4]]
     ctx.finish({
